@@ -192,3 +192,68 @@ def run(chk):
     from .C12 import array_literal_threading
     array_literal_threading(chk, e, tag="array-literal:")
     chk.use_engine(e)
+    chk.section("widening-sites", lambda: widening_sites(chk))
+
+
+REPLAY_SITES = r'''
+import tempfile, importlib.util, os, sys, shutil
+from guppylang_internals.error import GuppyError
+SITES = {
+    "variable-assigned": ("def f() -> float:\n    y = g()\n    x: float = y\n    return x\n", True),
+    "literal-assigned": ("def f() -> float:\n    x: float = 3\n    return x\n", True),
+    "operator-result-assigned": ("def f(n: int) -> float:\n    x: float = n + 1\n    return x\n", True),
+    "variable-argument": ("def f(n: int) -> float:\n    return h(n)\n", True),
+    "variable-returned": ("def f(n: nat) -> int:\n    return n\n", True),
+    "call-result-assigned": ("def f() -> float:\n    x: float = g()\n    return x\n", True),
+    "call-result-returned": ("def f() -> float:\n    return g()\n", True),
+    "call-result-argument": ("def f() -> float:\n    return h(g())\n", True),
+    "comptime-value-assigned": ("def f() -> float:\n    x: float = comptime(3)\n    return x\n", True),
+    "subscript-assignment": ("def f(n: nat) -> None:\n    xs = array(1.0, 2.0)\n    xs[0] = n\n", True),
+    "narrowing-call-result": ("def f() -> int:\n    x: int = hf()\n    return x\n", False),
+    "narrowing-variable": ("def f(z: float) -> int:\n    x: int = z\n    return x\n", False),
+    "narrowing-int-to-nat": ("def f(z: int) -> nat:\n    return z\n", False),
+}
+I = INPUT
+body, want = SITES[I["site"]]
+src = """from guppylang import guppy
+from guppylang.std.builtins import array, comptime, nat
+@guppy
+def g() -> int:
+    return 1
+@guppy
+def hf() -> float:
+    return 1.5
+@guppy
+def h(x: float) -> float:
+    return x
+@guppy
+""" + body
+d = tempfile.mkdtemp(dir=os.environ.get("TMPDIR", "/var/tmp")); fn = os.path.join(d, "replay_c16s.py"); open(fn, "w").write(src)
+spec = importlib.util.spec_from_file_location("replay_c16s", fn); m = importlib.util.module_from_spec(spec); sys.modules["replay_c16s"] = m
+spec.loader.exec_module(m)
+try:
+    m.f.check(); got = True
+except GuppyError as ex:
+    got = False; err = type(ex.error).__name__
+shutil.rmtree(d, ignore_errors=True)
+print(json.dumps({"violates": got != want, "evaluations": 1, "observed": "accepted" if got else "rejected", "required": "accepted (widening)" if want else "rejected (narrowing)",
+                  "detail": f"{I['site']}: {'accepted' if got else 'rejected'}, required {'accepted' if want else 'rejected'}"}))
+'''
+
+
+def widening_sites(chk):
+    """BOUNDED: one program per SITE at which an int/nat value meets an expected int/float type (and three
+    narrowing controls): widening sites are accepted, narrowing ones rejected."""
+    import json
+    from pyvc.report import run_replay
+    for site in ("variable-assigned", "literal-assigned", "operator-result-assigned", "variable-argument", "variable-returned", "call-result-assigned", "call-result-returned",
+                 "call-result-argument", "comptime-value-assigned", "subscript-assignment", "narrowing-call-result", "narrowing-variable", "narrowing-int-to-nat"):
+        res = run_replay(REPLAY_SITES, {"site": site}, chk.repo, timeout=600)
+        if "evaluations" not in res:
+            chk.undecided(f"bounded:widening-site[{site}]", "oracle run failed: " + json.dumps(res)[:600])
+            continue
+        o = chk.bounded_result(f"bounded:widening-site[{site}]:widening-accepted/narrowing-rejected", not res.get("violates"), 1, detail=res.get("detail"),
+                               witness={"site": site, "observed": res.get("observed")} if res.get("violates") else None, func=f"{EC}:check_call")
+        if res.get("violates"):
+            o.replay.update({"script": REPLAY_SITES, "input": {"site": site}})
+
